@@ -85,8 +85,12 @@ class Search(abc.ABC):
             logging.warning(
                 f"Results file already exists, it was renamed to {path_results_renamed}"
             )
-            evaluator._columns_dumped = None
-            evaluator._start_dumping = False
+
+        # The results of this search are written to a new file: an evaluator which already dumped
+        # results for an other search (possibly in an other directory) has to start again with
+        # the header.
+        self._evaluator._columns_dumped = None
+        self._evaluator._start_dumping = False
 
         # Default setting is asynchronous
         self.gather_type = "BATCH"
